@@ -94,6 +94,17 @@ def item_extent(toks, m, i, encl_open):
                 return nxt
             j = close + 1; continue
         if t.s == ";": return j + 1
+        if t.s == "=>" and angle == 0:
+            # a match arm: `PAT => { .. }` [,]  or  `PAT => expr,`
+            k2 = j + 1
+            if k2 < end_limit and toks[k2].s == "{":
+                e2 = m[k2] + 1
+                if e2 < end_limit and toks[e2].s == ",": e2 += 1
+                return e2
+            while k2 < end_limit and toks[k2].s != ",":
+                if toks[k2].k == "o": k2 = m[k2]
+                k2 += 1
+            return min(k2 + 1, end_limit)
         if t.s == "<" and j > 0 and (toks[j - 1].k == "id" or toks[j - 1].s == "::"): angle += 1
         elif t.s == ">" and angle > 0: angle -= 1
         elif t.s == "," and angle == 0: return j + 1
